@@ -298,6 +298,39 @@ class StmtErrors(Part):
         return None
 
 
+class ValidAccepted(Part):
+    """The converse: a template without a language error is never rejected.
+    (Every valid template generated by C01/C03/C04/C07/C09/C10 asserts the
+    same; this part concentrates on constructs that are easily mistaken for
+    errors: several attribute dictionaries, case variants of one attribute
+    name, tal: elements, foreign and repeated attributes, TALES prefixes.)"""
+    name = "valid"
+    examples = {"quick": 500, "thorough": 15000}
+
+    def strategy(self, tier):
+        return tstrat.templates(depth=2, max_elems=8, dict_attrs=True,
+                                tales=True, ns_elems=True, foreign=True,
+                                dup_attrs=True, onerror=2)
+
+    def nontrivial(self, case):
+        src = tmodel.serialize(case["nodes"]).text()
+        return "tal:attributes" in src or "tal:block" in src
+
+    def sample(self, case):
+        return {"source": tmodel.serialize(case["nodes"]).text()}
+
+    def oracle(self, case):
+        from chameleon import PageTemplate
+        src = '<r xmlns:foo="urn:foo">' + tmodel.serialize(
+            case["nodes"]).text() + "</r>"
+        for strict in (True, False):
+            o = run(PageTemplate, src, strict=strict)
+            if not o.ok:
+                return Mismatch("valid:rejected with " + o.exc_name, {
+                    "source": src, "strict": strict, "outcome": o.brief()})
+        return None
+
+
 CHECK = Check(
     "C11", "fault_enumeration",
     rule=("expr: valid generated templates x 11 shapes of invalid Python "
@@ -309,7 +342,7 @@ CHECK = Check(
           "position of a valid template; non-trivial = the snippet is "
           "preceded by a newline or non-ASCII text; distinct by sha1"
           % len(SNIPPETS)),
-    parts=[ExprErrors(), StmtErrors()],
+    parts=[ExprErrors(), StmtErrors(), ValidAccepted()],
     assumptions=[
         "which substring of a faulty statement a statement-level error "
         "points at is the implementation's choice: only 'inside the faulty "
